@@ -353,7 +353,7 @@ def main(tier, seed, replay=None):
                 L, d, nxt), res)
             hs = res.tagged("H")
             if q and nxt == "HHNext":
-                hs = par.sample(hs, 3, seed)
+                hs = par.sample(hs, 5, seed)
             if len(hs) > 60000:
                 k = len(hs) // 60000 + 1
                 hs = par.sample(hs, k, seed)
